@@ -82,6 +82,23 @@ func genConcCase(t *rapid.T) *ConcCase {
 			}
 			continue
 		}
+		if rapid.IntRange(0, 2).Draw(t, "renders") == 0 {
+			// programs whose first evaluation renders / hashes composite values built from literals
+			// (type objects hanging off the shared compiled expression): string(), set operations
+			ot := m.Obj(m.Field{Name: "b", T: m.Num}, m.Field{Name: "a", T: g.AnyResultType()}, m.Field{Name: "c", T: m.Str})
+			lit := func() *m.Expr {
+				return m.ObjE([]string{"c", "b", "a"}, []*m.Expr{g.Expr(m.Str), g.Expr(m.Num), g.Expr(ot.F[1].T)})
+			}
+			switch rapid.IntRange(0, 2).Draw(t, "renderkind") {
+			case 0:
+				c.Exprs = append(c.Exprs, m.Call("string", lit()))
+			case 1:
+				c.Exprs = append(c.Exprs, m.Call("len", m.Call("union", m.ListE(lit(), lit()), m.ListE(lit()))))
+			default:
+				c.Exprs = append(c.Exprs, m.Call("string", m.ListE(m.MapE(g.Expr(m.Str), lit()), m.MapE(g.Expr(m.Str), lit()))))
+			}
+			continue
+		}
 		c.Exprs = append(c.Exprs, g.Expr(g.AnyResultType()))
 	}
 	c.NVar = rapid.IntRange(1, 4).Draw(t, "nvar")
@@ -305,7 +322,7 @@ func checkConc(c *ConcCase) *Outcome {
 var c14 = Register(&Prop[ConcCase]{ID: "C14", Name: "concurrent-workloads", Gen: genConcCase, Check: checkConc})
 
 func TestC14(t *testing.T) {
-	R.Rule = "generated workloads under the race detector: 4-32 goroutines, each a drawn sequence of 2-8 operations over 2-6 generated programs (mono / poly calls, built-in and user-registered lazy functions incl. ones that force a thunk twice, dynamic calls, literals): compile + invoke on an engine of its own, compile on a shared engine that has finished its first compilation, invoke a shared callable, one-shot Eval; drawn busy-spin start offsets; oracle: no race report (the detector halts the run; the workload is the replay file) and the environment's values in 1-5 variants (the drawn values, and copies whose every string carries a salt unique to the workload, so that built-ins working on run-time text — match with the pattern from the environment in at least one program per workload — meet text new to the process while other goroutines are inside them); every operation's outcome equals the outcome of the same operation run alone (beforehand for the drawn values, afterwards for the salted ones); non-trivial = at least half of the workload's operations started while another goroutine was inside yae (atomic in-flight counter)"
+	R.Rule = "generated workloads under the race detector: 4-32 goroutines, each a drawn sequence of 2-8 operations over 2-6 generated programs (mono / poly calls, built-in and user-registered lazy functions incl. ones that force a thunk twice, dynamic calls, literals, programs that render or hash object literals on their first evaluation): compile + invoke on an engine of its own, compile on a shared engine that has finished its first compilation, invoke a shared callable, one-shot Eval; drawn busy-spin start offsets; oracle: no race report (the detector halts the run; the workload is the replay file) and the environment's values in 1-5 variants (the drawn values, and copies whose every string carries a salt unique to the workload, so that built-ins working on run-time text — match with the pattern from the environment in at least one program per workload — meet text new to the process while other goroutines are inside them); every operation's outcome equals the outcome of the same operation run alone (beforehand for the drawn values, afterwards for the salted ones); non-trivial = at least half of the workload's operations started while another goroutine was inside yae (atomic in-flight counter)"
 	R.Assume = []string{"the Go scheduler owns the interleaving: this samples schedules, it does not enumerate them", "the race detector has no false positives"}
 	reportKnown(t, "C14")
 	runRegress(t, "C14")
